@@ -264,7 +264,11 @@ func genDigest(t *rapid.T) DigestCase {
 		return perm[rapid.IntRange(0, n-1).Draw(t, label)]
 	}
 	for i := 0; i < ns; i++ {
-		switch rapid.IntRange(0, 4).Draw(t, "op") {
+		switch rapid.IntRange(0, 6).Draw(t, "op") {
+		case 6:
+			c.Script = append(c.Script, Edit{Op: "content_keep_mtime", Name: inSet("kept")})
+		case 5:
+			c.Script = append(c.Script, Edit{Op: "shift", Name: inSet("shifted")})
 		case 0:
 			c.Script = append(c.Script, Edit{Op: "content", Name: inSet("target"), Content: rapid.SampledFrom(c04Contents).Draw(t, "newcontent")})
 		case 1:
